@@ -210,6 +210,14 @@ struct Engine
                             sink += digest(e);
                             E e2(shared_elem);
                             sink += (e2 == shared_elem);
+                            // copy ASSIGNMENT from shared const objects into thread-private ones (same and other size, and
+                            // into a moved-from target) only reads the source
+                            e = shared_elem;
+                            sink += (e == shared_elem);
+                            E e3(std::move(e2));
+                            e2 = shared_elem;
+                            e3 = std::as_const(e);  // element = element of another size (element = reference needs equal sizes)
+                            sink += digest(e2) + digest(e3);
                         }
                     }
                     break;
@@ -303,6 +311,15 @@ struct Engine
             Vec scratch = make(rng, 1, 0, fixed, arena_s, id3);
             shared_elem.emplace(std::move(scratch[0]), typename E::allocator_type{arena_e});
         }
+        // a read-only use must leave the shared objects as they were (also visible without any race detector)
+        auto state = [&]
+        {
+            uint64_t d = digest(*shared_elem) * 1000003;
+            for (auto&& r : a) d = d * 31 + digest(r);
+            for (auto&& r : b) d = d * 37 + digest(r);
+            return d + a.size() * 7 + b.size() * 11 + a.capacity() + b.capacity();
+        };
+        const uint64_t state_before = state();
         g_go.store(false, std::memory_order_relaxed);
         std::vector<std::thread> ts;
         const int writers = std::max(1, threads / 4);
@@ -310,6 +327,8 @@ struct Engine
         for (int t = 0; t < writers; ++t) ts.emplace_back(writer, std::cref(a), std::cref(b), t, rounds / 4 + 1, mix(seed, static_cast<uint64_t>(cno)));
         g_go.store(true, std::memory_order_release);
         for (auto& t : ts) t.join();
+        if (state() != state_before)
+            violation("C19", "shared_object_modified_by_const_use", "the contents of the shared vectors / element differ after the threads (which only used them through const access) ended", "concurrent_const_use", "shared");
     }
 };
 }  // namespace
@@ -330,12 +349,13 @@ int main(int argc, char** argv)
         emit(J().kv("t", "case_begin").kv("case", c).str());
         arm_case_watchdog(900);
         set_ctx(c, 0, "concurrent_const_use", "shared", "C19", fmt("threads=%d,rounds=%d", threads, rounds).c_str());
+        out().viol_in_case = 0;
         Engine<Cfg>::run_case(seed, c, threads, rounds);
         uint64_t pairs = 0;
         for (int i = 0; i < R_COUNT; ++i)
             for (int k = 0; k < R_COUNT; ++k)
                 if (g_overlap[i][k].load() != 0) ++pairs;
-        emit(J().kv("t", "case_end").kv("case", c).kv("steps", static_cast<int64_t>(threads) * rounds).kv("viol", 0).kv("hash", fmt("%s|%" PRIu64 "|%lld", VF_CFG_STR, seed, static_cast<long long>(c))).raw("nt", fmt("{\"C19\":%d}", int(pairs >= 20)))
+        emit(J().kv("t", "case_end").kv("case", c).kv("steps", static_cast<int64_t>(threads) * rounds).kv("viol", out().viol_in_case).kv("hash", fmt("%s|%" PRIu64 "|%lld", VF_CFG_STR, seed, static_cast<long long>(c))).raw("nt", fmt("{\"C19\":%d}", int(pairs >= 20)))
                  .raw("trace", jarr_str({fmt("%d threads x %d rounds of const operations on 2 shared vectors and 1 shared element of %s, %d writer threads on private copies", threads, rounds, VF_CFG_STR, std::max(1, threads / 4))})).str());
     }
     Counters cn;
